@@ -280,6 +280,27 @@ func (e *Engine) acquire(st *State, class string, ref string, fx *FnExec) {
 		// inlined helper does not make the caller atomic
 		st.acq = snap
 		if fx.con != nil {
+			for _, gu := range fx.con.OnAcquire {
+				env := fx.specEnv(st, snap, nil)
+				sv := env.eval(gu.C.Expr)
+				if sv == nil {
+					continue
+				}
+				if gu.Assume {
+					if len(sv.V.L) == 1 {
+						e.assume(st, sv.V.L[0])
+					}
+					continue
+				}
+				keys := e.ghostKeys(gu.Ghost)
+				if len(keys) == len(sv.V.L) && len(keys) > 0 {
+					for i, k := range keys {
+						e.heapSet(st, k, sv.V.L[i])
+					}
+				} else {
+					e.specErrors = append(e.specErrors, "onacquire: unknown ghost or shape mismatch: "+gu.Ghost)
+				}
+			}
 			for _, ea := range fx.con.EnvAssume {
 				env := fx.specEnv(st, snap, nil)
 				sv := env.eval(ea.Expr)
@@ -1711,6 +1732,26 @@ func (fx *FnExec) checkCallSiteAsserts(st *State, key string, pos token.Pos, arg
 		n = top.callDyn[name]
 	}
 	top.callCount[name] = n
+	// ghost updates declared on an inlined function apply wherever it is inlined (every call of that name in it)
+	if fx != top && fx.con != nil {
+		for _, cs := range fx.con.CallSites {
+			if cs.Set == "" || cs.Callee != name {
+				continue
+			}
+			env := fx.specEnv(st, top.oldFor(st), nil)
+			if sv := env.eval(cs.C.Expr); sv != nil {
+				keys := e.ghostKeys(cs.Set)
+				if len(keys) == len(sv.V.L) && len(keys) > 0 {
+					for i, k := range keys {
+						e.heapSet(st, k, sv.V.L[i])
+					}
+				} else {
+					e.specErrors = append(e.specErrors, "callsite sets: unknown ghost or shape mismatch: "+cs.Set)
+				}
+			}
+			cs.seen = true
+		}
+	}
 	if top.con == nil || len(top.con.CallSites) == 0 {
 		return
 	}
@@ -1729,6 +1770,21 @@ func (fx *FnExec) checkCallSiteAsserts(st *State, key string, pos token.Pos, arg
 			for i := 0; i < sig.Params().Len() && i+off < len(args); i++ {
 				env.vars[fmt.Sprintf("$arg%d", i+off)] = &SV{V: args[i+off], T: sig.Params().At(i).Type()}
 			}
+		}
+		if cs.Set != "" {
+			// ghost update at this call
+			if sv := env.eval(cs.C.Expr); sv != nil {
+				keys := e.ghostKeys(cs.Set)
+				if len(keys) == len(sv.V.L) && len(keys) > 0 {
+					for i, k := range keys {
+						e.heapSet(st, k, sv.V.L[i])
+					}
+				} else {
+					e.specErrors = append(e.specErrors, "callsite sets: unknown ghost or shape mismatch: "+cs.Set)
+				}
+			}
+			cs.seen = true
+			continue
 		}
 		for i, nt := range env.evalSplit(cs.C.Expr) {
 			e.addObl("contract", fmt.Sprintf("callsite:%s#%d%s%s", name, n, cs.C.labelStr(), partName(nt, i)), top.clauseTags(cs.C), st, nt.term, pos)
